@@ -141,6 +141,14 @@ class Capture:
         for sp in rec['spills']:
             sp['temps'] = [(vk(t), b) for t, b in sp['temps']]
         rec.pop('keep_r', None)
+        # spill rewriting is checked right away so that only the last round has to be kept
+        rec['n_rounds'] = len(rec['rounds'])
+        rec['spill_errs'] = check_spill_py(rec) if len(rec['rounds']) > 1 else []
+        if rec['rounds']:
+            rec['rounds'] = [rec['rounds'][-1]]
+            rec['entry'] = None
+        for i in rec['after']:
+            i.pop('txt', None)
 
     def install(self):
         from ppci.codegen import registerallocator as ra
@@ -793,6 +801,10 @@ def collect_frames(ctx, cap, budget_frames, targets):
         attempts = 0
         while len(cap.frames) - n0 < want and attempts < want * 3 + 6:
             attempts += 1
+            if attempts % 8 == 0:
+                import gc
+                gc.collect()
+                gc.freeze()     # captured frames are plain long-lived data: keep them out of later GC passes
             seq += 1
             src = g.program(seq)
             opt = rng.choice([0, 2, 2])
@@ -911,7 +923,7 @@ def run(ctx):
     if not frames:
         ctx.failed_stages.append(('harness', 'no frame was captured: alloc_frame is no longer the allocator entry point'))
         return
-    spilled = [f for f in frames if len(f['rounds']) > 1]
+    spilled = [f for f in frames if f['n_rounds'] > 1]
     ctx.cov['stages']['frames_with_spill_rounds'] = len(spilled)
     ctx.cov['stages']['frames_with_coalesced_moves'] = sum(1 for f in frames if len(last_round(f)) > len(f['after']))
     # allocator's own liveness vs certificate (localisation statistic)
@@ -938,14 +950,14 @@ def run(ctx):
         for rec, st in list(zip(recs, stats_all))[:: max(1, len(recs) // 8)]:
             ctx.note_sample({'target': rec.get('march'), 'function': rec['name'], 'opt': rec.get('opt'),
                              'instructions': st['instructions'], 'vregs': st['vregs'], 'max_live': st['maxlive'],
-                             'coalesced_moves': st['removed'], 'spill_rounds': len(rec['rounds']) - 1,
+                             'coalesced_moves': st['removed'], 'spill_rounds': rec['n_rounds'] - 1,
                              'validator': 'accepted' if (bad is not None and recs.index(rec) not in bad) else 'rejected'})
     else:
         search(ctx, frames)
     # spill rewriting: structural correspondence (Python)
     nsp = 0
     for f in spilled:
-        errs = check_spill_py(f)
+        errs = f['spill_errs']
         nsp += 1
         if errs:
             ctx.cov['disagreements_checked'] = ctx.cov.get('disagreements_checked', 0) + 1
@@ -1005,7 +1017,7 @@ def replay(rec):
         if fname and fr['name'] != fname:
             continue
         errs, _ = pycheck(fr)
-        serrs = check_spill_py(fr) if len(fr['rounds']) > 1 else []
+        serrs = fr['spill_errs']
         wit = interp_search(fr) if errs else None
         print('frame %s: validator clauses failing: %s; spill check: %s; distinguishing execution: %s'
               % (fr['name'], errs[:4] or 'none', serrs[:4] or 'ok', wit))
